@@ -269,7 +269,7 @@ pub const SIZES_QUICK: [usize; 11] = [1, 2, 3, 4, 5, 8, 13, 27, 50, 100, 200];
 pub const CONDITIONED: [&str; 8] =
     ["uniform", "uniform", "lattice", "blattice", "coplanar", "mildcluster", "tiny", "clattice"];
 
-pub const ALL_FAMILIES: [&str; 13] = ["uniform", "lattice", "clattice", "blattice", "coplanar", "mildcluster", "tiny", "nearlattice", "walls", "cluster", "cosphere", "slabwalls", "nearpairs"];
+pub const ALL_FAMILIES: [&str; 16] = ["star", "rows", "gradient", "uniform", "lattice", "clattice", "blattice", "coplanar", "mildcluster", "tiny", "nearlattice", "walls", "cluster", "cosphere", "slabwalls", "nearpairs"];
 
 fn unit_points(family: &str, n: usize, dim: usize, r: &mut Rng) -> Vec<DVec3> {
     let mut u = vec![];
@@ -384,6 +384,59 @@ fn unit_points(family: &str, n: usize, dim: usize, r: &mut Rng) -> Vec<DVec3> {
             let m = 1 + r.below(5);
             for _ in 0..m {
                 u.push(rnd(r));
+            }
+        }
+        // one central generator surrounded by a noisy shell of all the others: the central cell has about n - 1 faces
+        // (large boundary cycles, many vertices), the shell cells are long wedges
+        "star" => {
+            let c0 = DVec3::splat(0.5) + 0.05 * (rnd(r) - 0.5);
+            u.push(c0);
+            let rad = 0.2 + 0.2 * r.f();
+            let noise = *r.pick(&[0.3, 0.05, 0.005]);
+            for _ in 1..n.max(2) {
+                let mut d = DVec3::new(r.gauss(), if dim >= 2 { r.gauss() } else { 0. }, if dim >= 3 { r.gauss() } else { 0. });
+                if d.length() < 1e-3 {
+                    d = DVec3::X;
+                }
+                let d = d / d.length();
+                let mut p = c0 + d * rad * (1. + noise * (r.f() - 0.5));
+                if dim < 3 {
+                    p.z = r.f();
+                }
+                if dim < 2 {
+                    p.y = r.f();
+                }
+                u.push(p);
+            }
+        }
+        // a jittered row (or sheet) of generators: cells span the whole box across the row; with periodic boundaries
+        // they neighbour their own images
+        "rows" => {
+            let sheet = dim >= 3 && r.bool();
+            let jit = *r.pick(&[0.2, 0.02, 0.002]);
+            let ax = r.below(3);
+            for _ in 0..n {
+                let mut p = DVec3::splat(0.5) + jit * (rnd(r) - 0.5);
+                p[ax] = r.f();
+                if sheet {
+                    p[(ax + 1) % 3] = r.f();
+                }
+                u.push(p);
+            }
+        }
+        // strong density gradient towards one corner: neighbour distances span several orders of magnitude
+        "gradient" => {
+            let pw = *r.pick(&[2, 3]);
+            let flip = [r.bool(), r.bool(), r.bool()];
+            for _ in 0..n {
+                let q = rnd(r);
+                let mut p = DVec3::new(q.x.powi(pw), q.y.powi(pw), q.z.powi(pw)) * 0.98 + 0.01;
+                for a in 0..3 {
+                    if flip[a] {
+                        p[a] = 1. - p[a];
+                    }
+                }
+                u.push(p);
             }
         }
         // ---- hostile families (used through the fixed corpus / class-level known findings) ----
